@@ -170,14 +170,20 @@ func (y *YieldStore) inject(op string) bool {
 	return true
 }
 
-func (y *YieldStore) pre(op, args string, mutating bool) {
+// pre does the wrapper's bookkeeping, decides whether the operation fails with an injected storage error, and parks.
+// Everything of the harness that takes a lock happens before the yield point: between being released and entering the
+// driver the task must not synchronise with anybody, or the race detector (race build) would take two operations that the
+// driver itself leaves unordered for ordered.
+func (y *YieldStore) pre(op, args string, mutating bool) (injected bool) {
 	y.mu.Lock()
 	y.Ops[op]++
 	if mutating {
 		y.Mutations++
 	}
 	y.mu.Unlock()
+	injected = y.inject(op)
 	y.Sim.Yield("store", op+"("+args+")")
+	return injected
 }
 
 func (y *YieldStore) post(op, args string, err error) {
@@ -201,8 +207,7 @@ func (y *YieldStore) MutationCount() int {
 
 func (y *YieldStore) CheckAndSaveNonce(ID string, nonce int64) error {
 	a := fmt.Sprintf("%s,%d", short(ID), nonce)
-	y.pre("CheckAndSaveNonce", a, false)
-	if y.inject("CheckAndSaveNonce") {
+	if y.pre("CheckAndSaveNonce", a, false) {
 		y.post("CheckAndSaveNonce", a, ErrInjected)
 		return ErrInjected
 	}
@@ -213,8 +218,7 @@ func (y *YieldStore) CheckAndSaveNonce(ID string, nonce int64) error {
 
 func (y *YieldStore) GetNode(id store.NodeID) (*store.Node, error) {
 	a := short(string(id))
-	y.pre("GetNode", a, false)
-	if y.inject("GetNode") {
+	if y.pre("GetNode", a, false) {
 		y.post("GetNode", a, ErrInjected)
 		return nil, ErrInjected
 	}
@@ -225,8 +229,7 @@ func (y *YieldStore) GetNode(id store.NodeID) (*store.Node, error) {
 
 func (y *YieldStore) SetNode(n store.Node) error {
 	a := short(string(n.ID))
-	y.pre("SetNode", a, true)
-	if y.inject("SetNode") {
+	if y.pre("SetNode", a, true) {
 		y.post("SetNode", a, ErrInjected)
 		return ErrInjected
 	}
@@ -288,8 +291,7 @@ func (y *YieldStore) sampleActiveHosts(kind string, limit int, first []store.Nod
 
 func (y *YieldStore) NodePeers(id store.NodeID) ([]store.Node, error) {
 	a := short(string(id))
-	y.pre("NodePeers", a, false)
-	if y.inject("NodePeers") {
+	if y.pre("NodePeers", a, false) {
 		y.post("NodePeers", a, ErrInjected)
 		return nil, ErrInjected
 	}
@@ -301,8 +303,7 @@ func (y *YieldStore) NodePeers(id store.NodeID) ([]store.Node, error) {
 
 func (y *YieldStore) UpdateNodePeers(id store.NodeID, peers []string, block uint64) ([]store.NodeID, error) {
 	a := fmt.Sprintf("%s,%d peers", short(string(id)), len(peers))
-	y.pre("UpdateNodePeers", a, true)
-	if y.inject("UpdateNodePeers") {
+	if y.pre("UpdateNodePeers", a, true) {
 		y.post("UpdateNodePeers", a, ErrInjected)
 		return nil, ErrInjected
 	}
@@ -314,8 +315,7 @@ func (y *YieldStore) UpdateNodePeers(id store.NodeID, peers []string, block uint
 
 func (y *YieldStore) GetNodeBalance(id store.NodeID) (store.Balance, error) {
 	a := short(string(id))
-	y.pre("GetNodeBalance", a, false)
-	if y.inject("GetNodeBalance") {
+	if y.pre("GetNodeBalance", a, false) {
 		y.post("GetNodeBalance", a, ErrInjected)
 		return store.Balance{}, ErrInjected
 	}
@@ -326,8 +326,7 @@ func (y *YieldStore) GetNodeBalance(id store.NodeID) (store.Balance, error) {
 
 func (y *YieldStore) AddNodeBalance(id store.NodeID, credit *big.Int) error {
 	a := fmt.Sprintf("%s,%s", short(string(id)), credit)
-	y.pre("AddNodeBalance", a, true)
-	if y.inject("AddNodeBalance") {
+	if y.pre("AddNodeBalance", a, true) {
 		y.post("AddNodeBalance", a, ErrInjected)
 		return ErrInjected
 	}
@@ -338,8 +337,7 @@ func (y *YieldStore) AddNodeBalance(id store.NodeID, credit *big.Int) error {
 
 func (y *YieldStore) GetAccountBalance(acc store.Account) (store.Balance, error) {
 	a := short(string(acc))
-	y.pre("GetAccountBalance", a, false)
-	if y.inject("GetAccountBalance") {
+	if y.pre("GetAccountBalance", a, false) {
 		y.post("GetAccountBalance", a, ErrInjected)
 		return store.Balance{}, ErrInjected
 	}
@@ -350,8 +348,7 @@ func (y *YieldStore) GetAccountBalance(acc store.Account) (store.Balance, error)
 
 func (y *YieldStore) AddAccountBalance(acc store.Account, credit *big.Int) error {
 	a := fmt.Sprintf("%s,%s", short(string(acc)), credit)
-	y.pre("AddAccountBalance", a, true)
-	if y.inject("AddAccountBalance") {
+	if y.pre("AddAccountBalance", a, true) {
 		y.post("AddAccountBalance", a, ErrInjected)
 		return ErrInjected
 	}
@@ -362,8 +359,7 @@ func (y *YieldStore) AddAccountBalance(acc store.Account, credit *big.Int) error
 
 func (y *YieldStore) AddAccountNode(acc store.Account, id store.NodeID) error {
 	a := short(string(acc)) + "," + short(string(id))
-	y.pre("AddAccountNode", a, true)
-	if y.inject("AddAccountNode") {
+	if y.pre("AddAccountNode", a, true) {
 		y.post("AddAccountNode", a, ErrInjected)
 		return ErrInjected
 	}
